@@ -691,9 +691,9 @@ def c19(out):
                 "with (key, latest tweak, mode) and with the reference model. CTR<T>: setKey, setIV (carries/wrap), encrypt/decrypt with random cuts incl. zero-length, in place or not, compared with skinny128_ctr_*. "
                 "distinct = distinct (class, key, tweak sequence) / (class, key, iv, cuts).")
     cxx = [os.path.join(ard, f) for f in sorted(os.listdir(ard)) if f.endswith(".cpp")]
-    v = [("prod", n(out, 24000, 1200000)), ("asan", n(out, 6000, 150000))]
+    v = [("prod", n(out, 24000, 1200000)), ("asan", n(out, 6000, 150000)), ("prod+Os", n(out, 3000, 60000)), ("prod+O0", n(out, 3000, 60000))]     # -Os is the Arduino default; without inlining, same-named inline helpers of two files collide
     if out.tier == "thorough":
-        v += [("clang", 200000), ("prod+O0", 60000), ("msan", 40000), ("prod+O3", 100000), ("asanclang", 40000)]
+        v += [("clang", 200000), ("msan", 40000), ("prod+O3", 100000), ("asanclang", 40000), ("clang+Os", 60000), ("prod+Og", 60000)]
     for vname, cases in v:
         exe = core.build_cxx_driver("drv_ard", [os.path.join(core.HARNESS, "drv_ard.cpp")] + cxx, [], vname, incs=[ard])
         run_sharded(out, exe, [], vname, cases)
